@@ -48,7 +48,7 @@ static void ptxt(const char *fmt, ...) {
 }
 #define BAD(key, ...) do { char _b[700]; snprintf(_b, sizeof(_b), __VA_ARGS__); vf_fail(key, "flags=%#x dtor=%d seed=%llu len=%d: %s | program: %s", c->flags, c->with_dtor, cur_seed, c->nlive, _b, prog_txt); } while (0)
 
-static long long st_giant, st_maxlive, st_ops, st_updates, st_updates_dup, st_refused, st_growths, st_wrap_clusters, st_iter_rm, st_iter_rm_wrap, st_itr_rm, st_dtor, st_keys_same_slot, st_walks;
+static long long st_threshold, st_iter_upd, st_iter_ins, st_giant, st_maxlive, st_ops, st_updates, st_updates_dup, st_refused, st_growths, st_wrap_clusters, st_iter_rm, st_iter_rm_wrap, st_itr_rm, st_dtor, st_keys_same_slot, st_walks;
 
 static val_t *new_val(void) { if (n_vals >= MAXV) return NULL; val_t *v = &V[n_vals]; v->id = n_vals; v_dead[n_vals] = false; n_vals++; return v; }
 
@@ -227,7 +227,8 @@ static void op_walk(map_t *c, vf_rng *r, int rm_den, int set_den) {
 }
 
 /* callback iteration with removal of the current entry */
-typedef struct { map_t *c; vf_rng *r; int rm_den; int stop_after; int ret_at_stop; int calls; bool failed; } icb_t;
+static int force_cb;
+typedef struct { map_t *c; vf_rng *r; int rm_den; int stop_after; int ret_at_stop; int calls; bool failed; int upd_den; int ins_at; bool inserted; } icb_t;
 static int iter_cb(void *up, const char *key, void *value) {
     icb_t *x = up; map_t *c = x->c;
     x->calls++;
@@ -244,6 +245,44 @@ static int iter_cb(void *up, const char *key, void *value) {
         e->live = false; c->nlive--;
         expect_dtor(c, &e->val, 1, "remove inside iterate callback");
         st_iter_rm++;
+    } else if (x->upd_den && vf_chance(x->r, 1, x->upd_den)) {
+        /* put on the CURRENT key from inside the callback: an update (or a refused put) never moves entries around, the
+         * pass goes on and still visits everything once - also when the map sits right at its growth threshold */
+        const char *kp = (c->flags & M_MAP_KEY_DUP) ? e->name : (c->flags & M_MAP_KEY_AUTOFREE) ? e->stored : e->name;
+        val_t *nv = kp ? new_val() : NULL;
+        if (nv) {
+            ptxt("=%s ", e->name);
+            size_t live0 = vf_live();
+            int ret = m_map_put(c->m, kp, nv);
+            if (c->flags & M_MAP_VAL_ALLOW_UPDATE) {
+                if (ret != 0) BAD("C05/update-failed", "update of the current key %s inside the iterate callback returned %d", e->name, ret);
+                int old = e->val; e->val = nv->id;
+                expect_dtor(c, &old, 1, "update inside iterate callback");
+            } else {
+                if (ret >= 0) BAD("C05/update-not-allowed", "put on the current key %s inside the callback returned %d in a map without update flag", e->name, ret);
+                expect_dtor(c, NULL, 0, "refused put inside iterate callback");
+            }
+            if (vf_live() != live0 && !x->failed) BAD("C05/alloc-balance", "put on an existing key inside the iterate callback changed the number of live allocations %ld -> %ld (no growth, no key copy expected)", (long)live0, (long)vf_live());
+            st_iter_upd++;
+        }
+    } else if (x->ins_at && x->calls == x->ins_at && !x->inserted) {
+        /* put of ANOTHER (new) key from inside the callback: m_map_iterate must stop with an error */
+        ent_t *ne = NULL;
+        for (int i = 0; i < c->ne; i++) if (!c->e[i].live) { ne = &c->e[i]; break; }
+        for (int t = 0; !ne && !(c->flags & M_MAP_KEY_AUTOFREE) && n_vals < MAXV - 2 && t < 50 && c->ne < MAXK; t++) {
+            const char *cand = pool[vf_below(x->r, NPOOL)];
+            if (!find_ent(c, cand)) { ne = &c->e[c->ne++]; memset(ne, 0, sizeof(*ne)); ne->name = cand; }
+        }
+        val_t *nv = ne ? new_val() : NULL;
+        if (nv && !(c->flags & M_MAP_KEY_AUTOFREE)) {
+            ptxt("+%s ", ne->name);
+            int ret = m_map_put(c->m, ne->name, nv);
+            if (ret != 0) BAD("C05/put-new-failed", "put of new key %s inside the iterate callback returned %d", ne->name, ret);
+            ne->live = true; ne->val = nv->id; c->nlive++; ne->visits = 1;
+            expect_dtor(c, NULL, 0, "put new inside iterate callback");
+            x->inserted = true;
+            st_iter_ins++;
+        }
     }
     return 0;
 }
@@ -251,11 +290,22 @@ static void op_iterate(map_t *c, vf_rng *r, int rm_den, int stop_after, int ret_
     ptxt("iterate[");
     for (int i = 0; i < c->ne; i++) c->e[i].visits = 0;
     bool was_live[MAXK]; for (int i = 0; i < c->ne; i++) was_live[i] = c->e[i].live;
-    icb_t x = { c, r, rm_den, stop_after, ret_at_stop, 0, false };
+    const int ne0 = c->ne;
+    icb_t x = { c, r, rm_den, stop_after, ret_at_stop, 0, false, 0, 0, false };
+    if (vf_chance(r, 1, 3)) x.upd_den = 1 + vf_below(r, 6);
+    if (!rm_den && !stop_after && vf_chance(r, 1, 3)) x.ins_at = 1 + vf_below(r, c->nlive ? c->nlive : 1);
+    if (force_cb == 1) { x.upd_den = 1; x.ins_at = 0; }
+    if (force_cb == 2) { x.upd_den = 0; x.ins_at = 1 + vf_below(r, c->nlive ? c->nlive : 1); }
+    force_cb = 0;
     int n0 = c->nlive;
     int ret = m_map_iterate(c->m, iter_cb, &x);
     ptxt("] ");
     if (x.failed) return;
+    if (x.inserted) {
+        if (ret >= 0) BAD("C05/iterate-ret", "the callback put another (new) key: m_map_iterate must stop with an error, returned %d after %d calls (inserted at call %d)", ret, x.calls, x.ins_at);
+        check_len(c, "iterate with insertion");
+        return;
+    }
     if (n0 == 0) { if (x.calls) BAD("C05/iterate-on-empty", "callback invoked on empty map"); return; }
     bool stopped = stop_after && x.calls >= stop_after;
     if (stopped) {
@@ -263,7 +313,7 @@ static void op_iterate(map_t *c, vf_rng *r, int rm_den, int stop_after, int ret_
         if (ret != exp) BAD("C05/iterate-ret", "iterate stopped by callback value %d returned %d, expected %d", ret_at_stop, ret, exp);
     } else {
         if (ret != 0) BAD("C05/iterate-ret", "complete iterate returned %d", ret);
-        for (int i = 0; i < c->ne; i++) if (was_live[i] && c->e[i].visits != 1) BAD("C05/iterate-missed", "key %s (live at start) handed to the callback %d times", c->e[i].name, c->e[i].visits);
+        for (int i = 0; i < ne0; i++) if (was_live[i] && c->e[i].visits != 1) BAD("C05/iterate-missed", "key %s (live at start) handed to the callback %d times", c->e[i].name, c->e[i].visits);
     }
     check_len(c, "iterate");
 }
@@ -345,6 +395,21 @@ static void run_sequence(uint64_t seed, int maxops, bool sample) {
     uint64_t h = seed ^ c->flags; bool nontriv = false;
     if (mode == 5) { for (int i = 0; i < nk; i++) op_put(c, keys[i], &r); prog_len = 0; ptxt("<giant chain of %d keys loaded in order> ", nk); }
     if (mode == 1) { int G = 150 + vf_below(&r, nk - 149); for (int i = 0; i < G && i < nk; i++) op_put(c, keys[i], &r); prog_len = 0; ptxt("<bulk load of %d keys> ", G); }
+    if (mode == 1 && vf_chance(&r, 1, 2)) {
+        /* park the map exactly on a growth threshold (0.75 load: 192 / 384 / 768 entries), then put from inside the callback:
+         * an update of the current key must not move anything, a new key must stop the pass with an error */
+        int thr = c->nlive <= 192 ? 192 : c->nlive <= 384 ? 384 : 768;
+        for (int i = 0; i < nk && c->nlive < thr; i++) { ent_t *e = find_ent(c, keys[i]); if (!e || !e->live) op_put(c, keys[i], &r); }
+        if (c->nlive == thr) {
+            prog_len = 0; ptxt("<loaded up to the growth threshold: %d keys> ", thr);
+            st_threshold++;
+            op_scan(c, "scan");
+            force_cb = 1 + vf_below(&r, 2);
+            op_iterate(c, &r, 0, 0, 1);
+            op_scan(c, "scan after callback puts");
+            nontriv = true;
+        }
+    }
     for (int i = 0; i < nops && n_vals < MAXV - 8; i++) {
         int o = vf_below(&r, 100);
         const char *k = keys[vf_below(&r, nk)];
@@ -402,6 +467,9 @@ int main(int argc, char **argv) {
     vf_stat("table_growths", st_growths);
     vf_stat("wrap_cluster_sequences", st_wrap_clusters);
     vf_stat("giant_chain_sequences", st_giant);
+    vf_stat("maps_parked_on_growth_threshold", st_threshold);
+    vf_stat("updates_inside_iterate_callback", st_iter_upd);
+    vf_stat("insertions_inside_iterate_callback", st_iter_ins);
     vf_stat("same_home_slot_keys", st_keys_same_slot);
     vf_stat("removals_inside_iterate_callback", st_iter_rm);
     vf_stat("iterate_with_removal_over_wrap_cluster", st_iter_rm_wrap);
